@@ -60,6 +60,18 @@ CLAIMED['C11'] = dict(
          'naming both a read-only mode and a delete option may take either effect.',
     technique='TLC model checking of PelDir.tla (walk loops vs effect rules) + TLC-simulated command sequences replayed into the real CLI, snapshots validated by TLC')
 
+CLAIMED['C06'] = dict(
+    text='PrettyPrint.tla defines which output lines are an allowed alignment of an input line (spaces inserted only '
+         'between the key\'s closing quote and the value, the key scanned as a JSON string) and contains the scanner of '
+         'prettyPrint as it is shaped; TLC checks scanner against rule for every json.dumps-shaped line with keys <= 3 / '
+         'string values <= 2 characters over the alphabet " \\ : { a space , and validates the judge\'s key-end scanner '
+         'against the construction.  The real prettyPrint is then observed on the same lines, at the module seam while '
+         'the real decoder and CLI print generated PELs (JSON / text user data full of quotes, colons, braces), and on '
+         'adversarial documents, both widths; TLC judges every line and demands the recorded round trip.',
+    design='DESIGN.md 4.8, 5 C06',
+    note='Trusted: TLC; json.loads equality as the round-trip projection.  Alignment is permitted, never required.',
+    technique='TLC model checking of PrettyPrint.tla (scanner vs alignment rule) + TLC-judged lines recorded from the real prettyPrint / CLI')
+
 REASON_NOT_YET = 'check not built yet in this session (planned per DESIGN.md 5); not claimed until its TLC-judged check runs green on the unchanged tree'
 
 
